@@ -93,6 +93,7 @@ func buildFamily(family, tier string, seed int64) []*Scenario {
 		out = append(out, g.famMatrix("m", []string{"required", "gt", "gte", "lt", "lte", "minlength", "maxlength", "length", "minitems", "maxitems", "enum", "email", "url", "uuid", "alpha", "numeric", "ipv4", "ipv6"}, allTypes, 14, false)...)
 		out = append(out, g.famRandom("r", n(12, 60), 8)...)
 		out = append(out, g.famWide("mw")...)
+		out = append(out, g.famBig("m")...)
 	}
 	return out
 }
